@@ -465,8 +465,10 @@ Definition marks_case (ty : atype) (ans : str) : sx :=
   | Err e => enc_err e
   end.
 
-(* (fmops "answer" (op…)), op ∈ seal | unseal | unseal-wrong | unseal-nokey: the
-   front-matter state machine from an unsealed front matter; per operation
+(* (fmops "answer" (op…)), op ∈ seal | unseal | unseal-wrong | unseal-nokey |
+   set-answer (a hand edit of the answer field, which can produce the invalid
+   state with both fields set): the front-matter state machine from an
+   unsealed front matter; per operation
    (class, answer, sealed-answer set?).  A failed operation leaves the front
    matter unchanged (the Go methods assign only after success). *)
 Fixpoint fmops_run (f : fm) (ops : list sx) : list sx :=
@@ -474,6 +476,7 @@ Fixpoint fmops_run (f : fm) (ops : list sx) : list sx :=
   | [] => []
   | o :: t =>
       let r := if sym_is o "seal" then toy_seal_fm (s_ "K") toy_key tt f
+               else if sym_is o "set-answer" then Ok (mkFm (fm_type f) (s_ "zz") (sealed f))
                else if sym_is o "unseal" then toy_unseal_fm (s_ "K") f
                else if sym_is o "unseal-wrong" then toy_unseal_fm (s_ "W") f
                else toy_unseal_fm [] f in
